@@ -36,6 +36,7 @@ def targets():
         mk('matmul', P + Q, lambda A, v: A.Quaternion(v.vec(*P), versor=False) @ v.vec(*Q)),
         mk('q_prod', P + Q, lambda A, v: O(A).q_prod(v.vec(*P), v.vec(*Q))),
         mk('conj', Q, lambda A, v: A.Quaternion(v.vec(*Q), versor=False).conjugate),
+        mk('q_conj_rows', P + Q, lambda A, v: O(A).q_conj(v.mat([P, Q])), 'q_conj on a 2-row array'),
         mk('conj_S', Q, lambda A, v: A.Quaternion(_S(v), versor=False, order='S').conjugate,
            'conjugate of a scalar-last quaternion, in its own storage order [x,y,z,w]'),
         mk('q_conj', Q, lambda A, v: O(A).q_conj(v.vec(*Q))),
@@ -80,6 +81,7 @@ def _impl():
         'conj': lambda q: Qn(q).conjugate,
         'conj_S': lambda q: ahrs.Quaternion(S(q), versor=False, order='S').conjugate,
         'q_conj': lambda q: O.q_conj(np.array(q)),
+        'q_conj_rows': lambda p, q: O.q_conj(np.array([p, q])),
         'inverse': lambda q: Qn(q).inverse,
         'inverse_versor': lambda q: ahrs.Quaternion(np.array(q)).inverse,
         'mult_L': lambda q: Qn(q).mult_L(),
@@ -110,6 +112,8 @@ def _quats(ctx, n):
     out = []
     for i, q in enumerate(qs):
         s = 1.0 if i % 3 == 0 else 10 ** ctx.rng.uniform(-3, 3)
+        if i % 7 == 5:
+            s = 10.0 ** float(ctx.rng.choice([-100, -30, -12, -9, -8, -5, 5, 9, 30, 100]))
         out.append(q * s)
     return out
 
@@ -120,7 +124,7 @@ def correspondence(ctx):
     qs = _quats(ctx, n)
     one = [cm.d(Q, q) for q in qs]
     two = [{**cm.d(P, qs[i]), **cm.d(Q, qs[(3 * i + 1) % len(qs)])} for i in range(len(qs))]
-    for name in ('product', 'mul', 'matmul', 'q_prod', 'S_product', 'product_QS', 'mul_QS', 'matmul_QH', 'product_SS', 'mul_SS', 'matmul_SS', 'matmul_QS'):
+    for name in ('product', 'mul', 'matmul', 'q_prod', 'S_product', 'q_conj_rows', 'product_QS', 'mul_QS', 'matmul_QH', 'product_SS', 'mul_SS', 'matmul_SS', 'matmul_QS'):
         ctx.correspond(f'C09_{name}', two, (lambda c, f=I[name]: f([c[k] for k in P], [c[k] for k in Q])))
     for name in ('normalize_views', 'conj', 'conj_S', 'q_conj', 'inverse', 'inverse_versor', 'mult_L', 'mult_R', 'q_mult_L', 'q_mult_R', 'S_wxyz', 'H_wxyz'):
         ctx.correspond(f'C09_{name}', one, (lambda c, f=I[name]: f([c[k] for k in Q])))
@@ -137,7 +141,12 @@ def o_algebra(inp):
     """associativity, norm multiplicativity, conjugation reverses products, mult_L/R, the four product entry points"""
     I = _impl()
     p, q, r = (np.array(inp[k], float) for k in 'pqr')
-    sc = max(1.0, np.linalg.norm(p)) * max(1.0, np.linalg.norm(q)) * max(1.0, np.linalg.norm(r))
+    # purely relative scale: the laws are homogeneous, so they must hold for tiny and huge norms alike
+    sc = np.linalg.norm(p) * np.linalg.norm(q) * max(np.linalg.norm(r), 1e-300)
+    sc = sc / max(np.linalg.norm(r), 1e-300) if True else sc
+    sc_pq = np.linalg.norm(p) * np.linalg.norm(q)
+    sc3 = sc_pq * np.linalg.norm(r)
+    sc = sc_pq
     prods = {k: I[k] for k in ('product', 'mul', 'matmul', 'q_prod')}
     ref = cm.qmul(p, q)
     for k, f in prods.items():
@@ -147,7 +156,7 @@ def o_algebra(inp):
     f = I[inp.get('entry', 'product')]
     lhs = f(np.asarray(f(p, q), float), r)
     rhs = f(p, np.asarray(f(q, r), float))
-    if _rel(lhs, rhs, sc) > 1e-11:
+    if _rel(lhs, rhs, sc3) > 1e-11:
         return {'tag': f"{inp.get('entry','product')}/not-associative", 'observed': lhs, 'expected': rhs}
     n = np.linalg.norm(np.asarray(f(p, q), float))
     if abs(n - np.linalg.norm(p) * np.linalg.norm(q)) > 1e-11 * sc:
@@ -156,10 +165,17 @@ def o_algebra(inp):
     c2 = np.asarray(f(np.asarray(I['conj'](q), float), np.asarray(I['conj'](p), float)), float)
     if _rel(c, c2, sc) > 1e-11:
         return {'tag': 'conjugate/does-not-reverse-product', 'observed': c, 'expected': c2}
-    if _rel(np.asarray(I['q_conj'](p), float), cm.qconj(p), sc) > TOL:
+    if _rel(np.asarray(I['q_conj'](p), float), cm.qconj(p), np.linalg.norm(p)) > TOL:
         return {'tag': 'q_conj/wrong', 'observed': I['q_conj'](p), 'expected': cm.qconj(p)}
+    for rows in ([p], [p, q], [p, q, r], [p, q, r, p], [q, p, r, q, p]):
+        got = np.asarray(I['q_conj'](np.array(rows)), float)
+        exp = np.array([cm.qconj(x) for x in rows])
+        if got.shape != exp.shape or cm.maxabs(got / np.linalg.norm(exp, axis=1)[:, None], exp / np.linalg.norm(exp, axis=1)[:, None]) > TOL:
+            return {'tag': f'q_conj/rows-N={len(rows)}', 'observed': got, 'expected': exp}
     L = np.asarray(I['mult_L'](p), float)
     Rm = np.asarray(I['mult_R'](q), float)
+    if cm.maxabs(L, np.array([[p[0], -p[1], -p[2], -p[3]], [p[1], p[0], -p[3], p[2]], [p[2], p[3], p[0], -p[1]], [p[3], -p[2], p[1], p[0]]])) > TOL * np.linalg.norm(p):
+        return {'tag': 'mult_L/not-the-left-matrix', 'observed': L}
     if _rel(L @ q, ref, sc) > 1e-11:
         return {'tag': 'mult_L/not-left-product', 'observed': L @ q, 'expected': ref}
     if _rel(Rm @ p, ref, sc) > 1e-11:
